@@ -132,7 +132,8 @@ Disambs == <<"compatible", "earlier", "later", "reject">>
 OffOpts == <<"use", "prefer", "ignore", "reject">>
 RelSrcs == <<"2021-03-09", "2021-03-09T13:14:15+05:30[+05:30]", "2021-03-09T13:14:15-05:00[America/New_York]", "2021-03-09T13:14:15Z[UTC]", "2021-03-09T13:14:15-03:00[America/New_York]",
              "2021-03-09[u-ca=hebrew]", "garbage", "2021-03-09T13:14:15Z">>
-CalSrcs == <<"iso8601", "gregory", "hebrew", "ISO8601", "nope", "islamic-civil", "japanese", "">>
+\* identifiers (any case, unknown, empty) and strings that are NOT identifiers but parse as ISO 8601 / RFC 9557 texts (FromStr reads their annotation; from_utf8 does not)
+CalSrcs == <<"iso8601", "gregory", "hebrew", "ISO8601", "nope", "islamic-civil", "japanese", "", "2020-01-01", "2020-01-01[u-ca=hebrew]", "12:30", "2020-01", "--01-01", "2020-01-01T00:00Z[u-ca=gregory]">>
 KindSrcs == <<"iso", "gregory", "hebrew", "islamicc", "islamic-civil", "nope", "japanext", "iso8601", "ethioaa">>
 Tzs == <<"+05:30", "America/New_York", "Europe/London", "UTC">>
 SeqOfSet(S) == LET RECURSIVE G(_) G(T) == IF T = {} THEN <<>> ELSE LET x == CHOOSE x \in T : TRUE IN <<x>> \o G(T \ {x}) IN G(S)
